@@ -42,6 +42,7 @@ STATE_MEASURE = ('distinct (fault kinds applied, outcome of the streaming '
 
 HOSTILE = {
     'length': ['abc', '-3', '0', '1.5', '99999999999999999999', '5', '1',
+               '9' * 4301, '1' + '0' * 5000,
                '-0', '007', '1e3', '9223372036854775807',
                '9223372036854775808'],
     'indent': ['abc', '-3', '0', '1.5', '99999999999999999999', '5',
@@ -53,7 +54,7 @@ HOSTILE = {
     'line_endings': ['mac', 'dos', 'unix', 'DOS', '5'],
     'format': ['yaml', 'json', 'JSON', '5'],
     'version': ['2.0', '1', '1.0', 'abc', '5'],
-    'type': ['binary', 'text', 'x', '5'],
+    'type': ['binary', 'text', 'x', '5', '7' * 4400],
     'mimetype': ['text/html', 'x', '5'],
 }
 HOSTILE_KEYS = ['files', 'changes', 'options', 'meta', 'preamble', 'diff',
